@@ -552,10 +552,13 @@ def report (p : List Nat) : Event :=
 /-- **The cycle in which a deserializer strobe is seen, and the idle gap after it.**  The decoder
 reports (and ACKs: in this very cycle at high speed or when the timer reads `delay`, otherwise
 exactly `delay + 1` cycles later) iff it is in READ_DATA, the length is 8 and the PID is SETUP; in
-every case it ends up in IDLE at a packet boundary, not armed. -/
+every case it ends up in IDLE at a packet boundary, not armed.  Only when it reports must the line
+stay idle long enough for the ACK (`hlong`). -/
 theorem strobe_tail (c : Config) (hc : c.delay ≤ c.counterMax + 1) (s : State) (g2 : Nat) (gs : List Nat)
     (ht : s.tok.fsm = .idle) (hd : s.ds.fsm = .idle) (hn : s.ds.newPacket = true) (hnt : s.tok.newToken = false)
-    (hdec : s.dec.fsm ≠ .delay) (hl : s.ds.activePacket.length = 10) (hlong : c.delay + 1 ≤ gs.length) (t : Nat) :
+    (hdec : s.dec.fsm ≠ .delay) (hl : s.ds.activePacket.length = 10)
+    (hlong : (s.dec.fsm == .readData && (s.ds.length == 8 && s.tok.pid == SETUP_PID)) = true → c.delay + 1 ≤ gs.length)
+    (t : Nat) :
     Boundary (final c s (idleC g2 :: gs.map idleC)) ∧ armedB (final c s (idleC g2 :: gs.map idleC)) = false ∧
     staleOf (final c s (idleC g2 :: gs.map idleC)) = staleOf s ∧
     ttrace c s (idleC g2 :: gs.map idleC) t =
@@ -588,6 +591,7 @@ theorem strobe_tail (c : Config) (hc : c.delay ≤ c.counterMax + 1) (s : State)
     simp only [ttrace, final, q1, i1]
     exact ⟨rest_boundary i2 i3, rest_unarmed i2 i3, by rw [i4, rs], by simp⟩
   | true =>
+    have hlong := hlong hcond
     simp only [Bool.and_eq_true, beq_iff_eq] at hcond
     obtain ⟨k1, n2, k3⟩ := hcond
     have r6 : latched (step c s (idleC g2)).1 = [report s.ds.packet] := by
